@@ -402,6 +402,16 @@ def contains(I, container, item, node=None, frame=None):
         t = term(item)
         return lift_bool(z3.And(t >= term(container.lo), t < term(container.hi)))
     if isinstance(container, (dict, set, frozenset)) or type(container).__name__ in ("dict_keys", "mappingproxy"):
+        import collections
+
+        if isinstance(container, collections.defaultdict) and container.default_factory is not None:
+            # a defaultdict that outlives the call is filled by every lookup of a missing key; the frame condition tolerates
+            # those default-valued entries only because nothing observes them: a membership test does
+            from . import frame as F
+
+            o = F.owner_of(container)
+            if o is not None:
+                I.ctx.frame_writes.append(f"membership test on the lazily filled shared table {o} (its keys depend on what was looked up before)")
         if not I.tainted(item) and not isinstance(item, Sym):
             return I.native(lambda c, i: i in c, (container, item), {})
         keys = list(container.keys() if hasattr(container, "keys") else container)
@@ -864,6 +874,10 @@ def m_bytes(I, args, kwargs):
     v = args[0]
     if isinstance(v, (SBytes, bytes)):
         return v
+    from .sym import SByteBuf
+
+    if isinstance(v, SByteBuf):
+        return SByteBuf(v.length, frozen=True)
     if isinstance(v, Sym):
         raise _I().Unsupported("bytes(symbolic int)")
     items = yield from I.iterate_all(v)
@@ -877,6 +891,20 @@ def m_bytes(I, args, kwargs):
         elif not isinstance(x, int):
             raise _I().Unsupported("bytes() of non-int items")
     return SBytes([term(x) if isinstance(x, Sym) else x for x in items])
+
+
+def m_bytearray(I, args, kwargs):
+    from .sym import SByteBuf
+
+    if len(args) == 1 and isinstance(args[0], SInt):
+        n = args[0].t
+        if I.ctx.decide(n < 0, "bytearray-negative-count"):
+            raise _I().PyExc(ValueError("negative count"))
+        return SByteBuf(n)
+    if any(isinstance(a, Sym) for a in args):
+        raise _I().Unsupported("bytearray of a symbolic value")
+    return I.native(bytearray, args, kwargs)
+    yield
 
 
 def m_int_from_bytes(I, args, kwargs):
@@ -1121,6 +1149,7 @@ _MODELS = {
     format: m_format,
     hash: m_hash,
     bytes: m_bytes,
+    bytearray: m_bytearray,
     binascii.hexlify: m_hexlify,
     dataclasses.fields: m_fields,
     object.__setattr__: m_object_setattr,
